@@ -387,6 +387,62 @@ def isDurInt : Ty → Bool | .dur _ => true | t => isInterval t
 
 def okInt (f : Int → Int → Int) : Int → Int → Except Err Int := fun a b => .ok (f a b)
 
+
+/-! ### Interval(MonthDayNano) × Float64: only the exact route (`factor.fract() == 0 && to_i64(factor)` →
+`mul_i64`) is modelled; every other factor goes through `f64` arithmetic and is answered `SKIP` -/
+
+/-- the integer a finite integral `f64` bit pattern denotes, if it is within `i64` (`ToPrimitive::to_i64`) -/
+def f64ToInt? (bits : Int) : Option Int :=
+  let b := bits.toNat
+  let neg := b / 2 ^ 63 = 1
+  let e := (b / 2 ^ 52) % 2048
+  let m := b % 2 ^ 52
+  let mag : Option Nat :=
+    if e = 2047 then none
+    else if e = 0 then (if m = 0 then some 0 else none)
+    else
+      let mant := m + 2 ^ 52
+      if e ≥ 1075 then some (mant * 2 ^ (e - 1075))
+      else if mant % 2 ^ (1075 - e) = 0 then some (mant / 2 ^ (1075 - e)) else none
+  match mag with
+  | none => none
+  | some n =>
+    let v : Int := if neg then -(n : Int) else n
+    if -(2 ^ 63 : Int) ≤ v ∧ v < 2 ^ 63 then some v else none
+
+/-- `1. / factor` when it is an exact power of two that is integral and within `i64` -/
+def f64RecipInt? (bits : Int) : Option Int :=
+  let b := bits.toNat
+  let neg := b / 2 ^ 63 = 1
+  let e := (b / 2 ^ 52) % 2048
+  let m := b % 2 ^ 52
+  if m ≠ 0 ∨ e = 0 ∨ e = 2047 ∨ e > 1023 then none else
+  let k := 1023 - e          -- factor = ±2^(-k), reciprocal = ±2^k
+  let v : Int := if neg then -(2 ^ k : Int) else 2 ^ k
+  if -(2 ^ 63 : Int) ≤ v ∧ v < 2 ^ 63 then some v else none
+
+def f64IsZero (bits : Int) : Bool := bits == 0 || bits == 2 ^ 63
+
+/-- `interval_f64_op` slot operation -/
+def intervalF64Slot (op : KOp) (l : Item) (r : Item) : Except Err Item :=
+  match r with
+  | [f] =>
+    match op with
+    | .mul => (match f64ToInt? f with | some k => intervalMulI64 .imdn l [k] | none => .error .compute)
+    | .div => if f64IsZero f then .error .divzero else
+              (match f64RecipInt? f with | some k => intervalMulI64 .imdn l [k] | none => .error .compute)
+    | _ => .error .invalidArg
+  | _ => .error .compute
+
+/-- does a valid `f64` slot need the (unmodelled) floating-point route? -/
+def f64NeedsFloatRoute (op : KOp) (f : Arr Item) : Bool :=
+  (decode f.vals f.valid).any (fun o => match o with
+    | some [x] => (match op with
+        | .mul => (f64ToInt? x).isNone
+        | .div => !(f64IsZero x) && (f64RecipInt? x).isNone
+        | _ => false)
+    | _ => false)
+
 /-- `arithmetic_op` dispatch -/
 def resolve (fuel : Nat) (op : KOp) (lt rt : Ty) : Resolved :=
   let invalid := Resolved.err .invalidArg
@@ -407,6 +463,11 @@ def resolve (fuel : Nat) (op : KOp) (lt rt : Ty) : Resolved :=
     | .subW => .plan ⟨lt, lt, none, false, one1 (okInt (subWrapping t)), one1 (wrappingSpec t .sub), [0], none, false⟩
     | .mulW => .plan ⟨lt, lt, none, false, one1 (okInt (mulWrapping t)), one1 (wrappingSpec t .mul), [0], none, false⟩
   | .dec b p1 s1, .dec b' p2 s2 => if b ≠ b' then invalid else decimalPlan op b p1 s1 p2 s2
+  | .imdn, .flt 64 =>
+    .plan ⟨.imdn, .imdn, none, true, intervalF64Slot op, intervalF64Slot op, [0, 0, 0], none, false⟩
+  | .flt 64, .imdn =>
+    if op = .mul then .plan ⟨.imdn, .imdn, none, true, fun a b => intervalF64Slot op b a, fun a b => intervalF64Slot op b a, [0, 0, 0], none, false⟩
+    else invalid
   | .ts u, rt =>
     match rt with
     | .ts u' => if op.isSub ∧ u = u' then checkedI i64T (.dur u) .sub else invalid
@@ -498,6 +559,7 @@ def sameOutcome (m s : Except Err (List (Option Item))) : Bool :=
 def handleArith (opS ltS lS rtS rS : String) : String :=
   match parseKOp opS, parseTy ltS, parseOperand lS, parseTy rtS, parseOperand rS with
   | some op, some lt, some l, some rt, some r =>
+    if (lt = .imdn ∧ rt = .flt 64 ∧ f64NeedsFloatRoute op r.arr) ∨ (lt = .flt 64 ∧ rt = .imdn ∧ f64NeedsFloatRoute op l.arr) then "SKIP" else
     match resolve 2 op lt rt with
     | .skip => "SKIP"
     | .err e => showErr e
@@ -608,6 +670,21 @@ def handleAgg (fn tyS aS : String) : String :=
       let e : Int := match ty with | .flt b => 2 ^ b - 1 | _ => t.lo
       check (showOptInt (aggregateLanes (fun m x => if key x > key m then x else m) e lanes vals valid))
             (showOptInt (maxSpec key logical))
+    | "prod" =>
+      let wmul : Int → Int → Int := if t.bits = 256 then
+        (fun x y => ((I256.ofInt x).wrappingMul (I256.ofInt y)).value) else mulWrapping t
+      check (showOptInt (aggregateLanes wmul 1 lanes vals valid))
+            (showOptInt (match nonNull logical with | [] => none | vs => some (t.wrap (vs.foldl (· * ·) 1))))
+    | "prodc" =>
+      -- `product_checked`: `try_fold` with `mul_checked` over the valid slots in index order
+      let m : Except Err (Option Int) :=
+        if (valid.zip vals).all (fun p => !p.1) then .ok none else
+        ((vals.zip valid).foldlM (fun (acc : Int) (p : Int × Bool) => if p.2 then nativeChecked t .mul acc p.1 else .ok acc) 1).map some
+      let s : Except Err (Option Int) := match nonNull logical with
+        | [] => .ok none
+        | vs => (vs.foldlM (fun (acc : Int) (v : Int) => checkedSpec t .mul acc v) 1).map some
+      let sh : Except Err (Option Int) → String := fun r => match r with | .ok o => showOptInt o | .error e => showErr e
+      check (sh m) (sh s)
     | "band" =>
       check (showOptInt (bitAggregate (bitOpInt t (· &&& ·)) (t.wrap (-1)) vals valid))
             (showOptInt (reduceSpec (bitOpInt t (· &&& ·)) (t.wrap (-1)) logical))
@@ -683,6 +760,292 @@ def handleBagg (fn aS : String) : String :=
     | _ => "bad-op"
   | none => "bad-op"
 
+/-! ### aggregates over dictionary / run-end-encoded inputs (`sum_array`, `min_array`, …) -/
+
+/-- specification answer for an aggregate over a logical column -/
+def aggSpecAnswer (fn : String) (t : NT) (logical : List (Option Int)) : String :=
+  match fn with
+  | "sum" => showOptInt (sumSpec t logical)
+  | "sumc" => (match sumCheckedSpec t logical with | .ok o => showOptInt o | .error e => showErr e)
+  | "min" => showOptInt (minSpec id logical)
+  | "max" => showOptInt (maxSpec id logical)
+  | _ => "bad-op"
+
+/-- `C12 agg2 <fn> <ty> <values> dict <keys>` / `… ree <ends> <off> <len>`: the answer is the
+**specification** on the logical column (key/run → value, null if the key or the value is null) -/
+def handleAgg2 (toks : List String) : String :=
+  match toks with
+  | [fn, tyS, vS, "dict", kS] =>
+    match parseTy tyS, parseOperand vS, parseOperand kS with
+    | some ty, some v, some k =>
+      let t := (ntOf ty).getD i64T
+      let vlog := decode (v.arr.vals.map (·.headD 0)) v.arr.valid
+      let klog := decode (k.arr.vals.map (·.headD 0)) k.arr.valid
+      let logical := klog.map (fun o => match o with
+        | some key => (vlog.getD key.toNat none)
+        | none => none)
+      aggSpecAnswer fn t logical
+    | _, _, _ => "bad-op"
+  | [fn, tyS, vS, "ree", eS, offS, lenS] =>
+    match parseTy tyS, parseOperand vS, parseList parseInt eS, offS.toNat?, lenS.toNat? with
+    | some ty, some v, some ends, some off, some len =>
+      let t := (ntOf ty).getD i64T
+      let vlog := decode (v.arr.vals.map (·.headD 0)) v.arr.valid
+      let runs := ends.zip vlog
+      let logical := (List.range len).map (fun i =>
+        match runs.find? (fun p => decide (p.1 > ((off + i : Nat) : Int))) with
+        | some p => p.2
+        | none => none)
+      aggSpecAnswer fn t logical
+    | _, _, _, _, _ => "bad-op"
+  | _ => "bad-op"
+
+/-! ### min / max of byte arrays and strings: lexicographic order on bytes -/
+
+def lexLt : List Nat → List Nat → Bool
+  | [], [] => false
+  | [], _ :: _ => true
+  | _ :: _, [] => false
+  | a :: as, b :: bs => if a < b then true else if b < a then false else lexLt as bs
+
+def handleAggs (fn items : String) : String :=
+  let parse (x : String) : Option (Option (List Nat)) :=
+    if x = "n" then some none else (parseHex (let r := (x.drop 1).toString; if r = "" then "-" else r)).map some
+  match parseList parse items with
+  | some xs =>
+    let vs := nonNull xs
+    let best := match vs with
+      | [] => none
+      | v :: rest => some (rest.foldl (fun m x => if fn = "min" then (if lexLt x m then x else m) else (if lexLt m x then x else m)) v)
+    match best with
+    | none => "none"
+    | some b => "x" ++ (if b.isEmpty then "" else toHex b)
+  | none => "bad-op"
+
+/-! ### bitwise kernels (bitwise.rs): `binary` / `unary` with the bit operation -/
+
+/-- `wrapping_shl(b as u32)` / `wrapping_shr(b as u32)` with `b.as_usize()`: the amount is taken modulo the width -/
+def shiftOp (t : NT) (left : Bool) (a b : Int) : Int :=
+  let k := (b % (t.bits : Int)).toNat
+  if left then t.wrap (a * 2 ^ k) else a / (2 ^ k : Int)
+
+def bitFn (t : NT) (f : String) : Option (Int → Int → Int) :=
+  match f with
+  | "and" => some (bitOpInt t (· &&& ·))
+  | "or" => some (bitOpInt t (· ||| ·))
+  | "xor" => some (bitOpInt t (· ^^^ ·))
+  | "andnot" => some (fun a b => bitOpInt t (· &&& ·) a (t.wrap (-b - 1)))
+  | "shl" => some (shiftOp t true)
+  | "shr" => some (shiftOp t false)
+  | _ => none
+
+def ints1 (a : Arr Item) : Arr Int := ⟨a.vals.map (·.headD 0), a.valid⟩
+def showIntSlots (ty : Ty) (xs : List (Option Int)) : String :=
+  s!"{showTy ty} {showList (fun o => match o with | some v => toString v | none => "n") xs}"
+
+def handleBitw (scalarForm : Bool) (toks : List String) : String :=
+  match toks with
+  | ["not", tyS, aS] =>
+    match parseTy tyS, parseOperand aS with
+    | some (.int t), some a =>
+      let f : Int → Int := fun x => t.wrap (-x - 1)
+      check (showIntSlots (.int t) (unary f (ints1 a.arr)).logical) (showIntSlots (.int t) (unarySpec f (ints1 a.arr).logical))
+    | _, _ => "bad-op"
+  | [f, tyS, aS, bS] =>
+    match parseTy tyS, parseOperand aS with
+    | some (.int t), some a =>
+      match bitFn t f with
+      | none => "bad-op"
+      | some op =>
+        if scalarForm then
+          match parseInt bS with
+          | some sv =>
+            check (showIntSlots (.int t) (unary (fun x => op x sv) (ints1 a.arr)).logical)
+                  (showIntSlots (.int t) (unarySpec (fun x => op x sv) (ints1 a.arr).logical))
+          | none => "bad-op"
+        else
+          match parseOperand bS with
+          | some b =>
+            if a.arr.vals.length ≠ b.arr.vals.length then showErr .compute else
+            check (showIntSlots (.int t) (binary op (ints1 a.arr) (ints1 b.arr)).logical)
+                  (showIntSlots (.int t) (binarySpec op (ints1 a.arr).logical (ints1 b.arr).logical))
+          | none => "bad-op"
+    | _, _ => "bad-op"
+  | _ => "bad-op"
+
+/-! ### `ArrowNativeTypeOp` methods called directly -/
+
+def parseNT (s : String) : Option NT :=
+  match s with
+  | "i128" => some ⟨true, 128⟩ | "i256" => some ⟨true, 256⟩
+  | s => match parseTy s with | some (.int t) => some t | _ => none
+
+def showExc (r : Except Err Int) : String := match r with | .ok v => toString v | .error e => showErr e
+
+/-- std `wrapping_div` / `wrapping_rem` (panic on a zero divisor) through the model -/
+def nativeDivWrapping (t : NT) (a b : Int) : Option Int :=
+  if t.bits = 256 then ((I256.ofInt a).wrappingDiv (I256.ofInt b)).map I256.value
+  else if b = 0 then none else some (t.wrap (Int.tdiv a b))
+def nativeRemWrapping (t : NT) (a b : Int) : Option Int :=
+  if t.bits = 256 then ((I256.ofInt a).wrappingRem (I256.ofInt b)).map I256.value
+  else if b = 0 then none else some (modWrapping t a b)
+
+def handleNat (m tyS aS bS : String) : String :=
+  match parseNT tyS, parseInt aS, parseInt bS with
+  | some t, some a, some b =>
+    let w256 (f : I256 → I256 → I256) : Int := (f (I256.ofInt a) (I256.ofInt b)).value
+    let spec (x : Int) : String := if t.inRange x then toString x else showErr .overflow
+    let optS (o : Option Int) : String := match o with | some v => toString v | none => "PANIC"
+    match m with
+    | "addc" => check (showExc (nativeChecked t .add a b)) (spec (a + b))
+    | "subc" => check (showExc (nativeChecked t .sub a b)) (spec (a - b))
+    | "mulc" => check (showExc (nativeChecked t .mul a b)) (spec (a * b))
+    | "divc" => check (showExc (nativeChecked t .div a b)) (if b = 0 then showErr .divzero else spec (Int.tdiv a b))
+    | "modc" => check (showExc (nativeChecked t .rem a b)) (showExc (nativeCheckedSpec t .rem a b))
+    | "negc" => check (showExc (nativeNegChecked t a)) (spec (-a))
+    | "powc" => check (showExc (nativePowChecked t a b.toNat)) (if b.toNat > 300 ∧ (a < -1 ∨ 1 < a) then showErr .overflow else spec (a ^ b.toNat))
+    | "addw" => check (toString (if t.bits = 256 then w256 I256.wrappingAdd else addWrapping t a b)) (toString (t.wrap (a + b)))
+    | "subw" => check (toString (if t.bits = 256 then w256 I256.wrappingSub else subWrapping t a b)) (toString (t.wrap (a - b)))
+    | "mulw" => check (toString (if t.bits = 256 then w256 I256.wrappingMul else mulWrapping t a b)) (toString (t.wrap (a * b)))
+    | "negw" => check (toString (if t.bits = 256 then (I256.ofInt a).wrappingNeg.value else negWrapping t a)) (toString (t.wrap (-a)))
+    | "divw" => check (optS (nativeDivWrapping t a b)) (if b = 0 then "PANIC" else toString (t.wrap (Int.tdiv a b)))
+    | "modw" => check (optS (nativeRemWrapping t a b)) (if b = 0 then "PANIC" else toString (Int.tmod a b))
+    | "poww" => if b.toNat > 2000 then "SKIP" else check (toString (nativePowWrapping t a b.toNat)) (toString (t.wrap (a ^ b.toNat)))
+    | "cmp" => showOrd (compare a b)
+    | "iszero" => showBool (a == 0)
+    | _ => "bad-op"
+  | _, _, _ => "bad-op"
+
+/-! ### interval structs (arrow-buffer/src/interval.rs): component-wise std operations -/
+
+def ivalParts (tyS : String) : List NT := if tyS = "idt" then [i32T, i32T] else [i32T, i32T, i64T]
+
+/-- `none` = `None`; panics (`wrapping_div`/`wrapping_rem` by a zero component) are `Except.error` -/
+def handleIval (m tyS aS bS : String) : String :=
+  let nts := ivalParts tyS
+  match parseItemVal aS with
+  | none => "bad-op"
+  | some a =>
+    let un (f : NT → Int → Option Int) : String :=
+      match (nts.zip a).mapM (fun p => f p.1 p.2) with
+      | some r => showItem r
+      | none => "none"
+    let chk (t : NT) (x : Int) : Option Int := if t.inRange x then some x else none
+    match m with
+    | "wneg" => un (fun t x => some (t.wrap (-x)))
+    | "cneg" => un (fun t x => chk t (-x))
+    | "wabs" => un (fun t x => some (t.wrap (if x < 0 then -x else x)))
+    | "cabs" => un (fun t x => chk t (if x < 0 then -x else x))
+    | "wpow" => (match bS.toNat? with | some e => un (fun t x => some (powWrapping t x e)) | none => "bad-op")
+    | "cpow" => (match bS.toNat? with | some e => un (fun t x => if e > 300 ∧ (x < -1 ∨ 1 < x) then none else chk t (x ^ e)) | none => "bad-op")
+    | _ =>
+      match parseItemVal bS with
+      | none => "bad-op"
+      | some b =>
+        let bin (f : NT → Int → Int → Option (Option Int)) : String :=   -- outer none = panic
+          match ((nts.zip a).zip b).mapM (fun p => f p.1.1 p.1.2 p.2) with
+          | none => "PANIC"
+          | some rs => match rs.mapM id with | some r => showItem r | none => "none"
+        match m with
+        | "wadd" => bin (fun t x y => some (some (t.wrap (x + y))))
+        | "wsub" => bin (fun t x y => some (some (t.wrap (x - y))))
+        | "wmul" => bin (fun t x y => some (some (t.wrap (x * y))))
+        | "wdiv" => bin (fun t x y => if y = 0 then none else some (some (t.wrap (Int.tdiv x y))))
+        | "wrem" => bin (fun t x y => if y = 0 then none else some (some (Int.tmod x y)))
+        | "cadd" => bin (fun t x y => some (chk t (x + y)))
+        | "csub" => bin (fun t x y => some (chk t (x - y)))
+        | "cmul" => bin (fun t x y => some (chk t (x * y)))
+        | "cdiv" => bin (fun t x y => some (stdCheckedDiv t x y))
+        | "crem" => bin (fun t x y => some (stdCheckedRem t x y))
+        | _ => "bad-op"
+
+/-! ### `*_mut` arity kernels on Int32 with the harness' fixed operations -/
+
+def handleArity (toks : List String) : String :=
+  let sh (r : Except Err (List (Option Int))) : String := match r with
+    | .ok xs => showIntSlots (.int i32T) xs
+    | .error e => showErr e
+  let chk (m s : Except Err (List (Option Int))) : String := check (sh m) (sh s)
+  match toks with
+  | ["unary_mut", aS] =>
+    match parseOperand aS with
+    | some a => let f : Int → Int := fun v => mulWrapping i32T v 3
+                chk (.ok (unary f (ints1 a.arr)).logical) (.ok (unarySpec f (ints1 a.arr).logical))
+    | none => "bad-op"
+  | ["try_unary_mut", aS] =>
+    match parseOperand aS with
+    | some a => chk ((tryUnary (fun v => mulChecked i32T v 3) 0 (ints1 a.arr)).map Arr.logical)
+                    (tryUnarySpec (fun v => checkedSpec i32T .mul v 3) (ints1 a.arr).logical)
+    | none => "bad-op"
+  | ["binary_mut", aS, bS] =>
+    match parseOperand aS, parseOperand bS with
+    | some a, some b =>
+      if a.arr.vals.length ≠ b.arr.vals.length then showErr .compute else
+      chk (.ok (binary (addWrapping i32T) (ints1 a.arr) (ints1 b.arr)).logical)
+          (.ok (binarySpec (addWrapping i32T) (ints1 a.arr).logical (ints1 b.arr).logical))
+    | _, _ => "bad-op"
+  | ["try_binary_mut", aS, bS] =>
+    match parseOperand aS, parseOperand bS with
+    | some a, some b =>
+      if a.arr.vals.length ≠ b.arr.vals.length then showErr .compute else
+      chk ((tryBinary (addChecked i32T) 0 (ints1 a.arr) (ints1 b.arr)).map Arr.logical)
+          (tryBinarySpec (checkedSpec i32T .add) (ints1 a.arr).logical (ints1 b.arr).logical)
+    | _, _ => "bad-op"
+  | _ => "bad-op"
+
+/-! ### `multiply_fixed_point{,_checked,_dyn}` (arrow-arith/src/arithmetic.rs) -/
+
+/-- `divide_and_round`: truncated quotient adjusted by the remainder = round half away from zero -/
+def divideAndRound (input div : Int) : Int :=
+  let d := Int.tdiv input div
+  let r := Int.tmod input div
+  let half := Int.tdiv div 2
+  if input ≥ 0 ∧ r ≥ half then d + 1 else if input < 0 ∧ r ≤ -half then d - 1 else d
+
+/-- specification: the exact rational quotient rounded half away from zero -/
+def roundHalfAway (n d : Int) : Int :=
+  -- d > 0
+  if n ≥ 0 then (2 * n + d) / (2 * d) else -((2 * (-n) + d) / (2 * d))
+
+def handleFixp (f ltS lS rtS rS reqS : String) : String :=
+  match parseTy ltS, parseOperand lS, parseTy rtS, parseOperand rS, parseInt reqS with
+  | some (.dec 128 p1 s1), some l, some (.dec 128 p2 s2), some r, some req =>
+    let t : NT := ⟨true, 128⟩
+    let product_scale := s1 + s2
+    let precision := min (p1 + p2 + 1) DECIMAL128_MAX_PRECISION
+    if req > product_scale then showErr .compute else
+    let divisor : Int := 10 ^ (product_scale - req).toNat
+    let checked := f == "mfpc"
+    let op : Int → Int → Except Err Int :=
+      if req = product_scale then (if checked then mulChecked t else fun a b => .ok (mulWrapping t a b))
+      else fun a b =>
+        -- `i256::from_i128(a).wrapping_mul(from_i128(b))`, `divide_and_round`, `to_i128` / `as_i128`
+        let mul := ((I256.ofInt a).wrappingMul (I256.ofInt b)).value
+        let q := divideAndRound mul divisor
+        if checked then (if t.inRange q then .ok q else .error .overflow) else .ok (t.wrap q)
+    let spec : Int → Int → Except Err Int := fun a b =>
+      let q := roundHalfAway (a * b) divisor
+      if checked then (if t.inRange q then .ok q else .error .overflow) else .ok (t.wrap q)
+    let post := if !decTypeValid DECIMAL128_MAX_PRECISION DECIMAL128_MAX_SCALE precision req then some Err.invalidArg else none
+    let outTy := Ty.dec 128 precision req
+    let p : Plan := ⟨outTy, outTy, post, checked, one1 op, one1 spec, [0], none, false⟩
+    let fin : Except Err (List (Option Item)) → Except Err (List (Option Item)) := fun x =>
+      match x, post with | .ok _, some e => .error e | x, _ => x
+    let m := fin (runKernelModel p l r)
+    let s := fin (runKernelSpec p l r)
+    let ms := showResult (m.map (outTy, ·))
+    if sameOutcome m s then ms else s!"MODEL-SPEC-MISMATCH model={ms} spec={showResult (s.map (outTy, ·))}"
+  | _, _, _, _, _ => "bad-op"
+
+/-- `validate_decimal*_precision` / `is_validate_*`: `|v| ≤ 10^p − 1` (the MIN/MAX tables) -/
+def handleDecv (bitsS pS vS : String) : String :=
+  match bitsS.toNat?, pS.toNat?, parseInt vS with
+  | some bits, some p, some v =>
+    let maxP := (decMax bits).1
+    if (p : Int) > maxP then "err" else
+    if -(10 ^ p : Int) < v ∧ v < (10 ^ p : Int) then "ok" else "err"
+  | _, _, _ => "bad-op"
+
 /-! ### dispatch -/
 
 def handle (toks : List String) : String :=
@@ -715,6 +1078,25 @@ def handle (toks : List String) : String :=
   | ["neg", ty, a] => handleNeg false ty a
   | ["neg_wrapping", ty, a] => handleNeg true ty a
   | ["agg", fn, ty, a] => handleAgg fn ty a
+  | "agg2" :: rest => handleAgg2 rest
+  | ["aggs", fn, _kind, items] => handleAggs fn items
+  | "bitw" :: rest => handleBitw false rest
+  | "bitws" :: rest => handleBitw true rest
+  | ["nat", m, ty, a, b] => handleNat m ty a b
+  | ["nat", m, ty, a] => handleNat m ty a "0"
+  | ["ival", m, ty, a, b] => handleIval m ty a b
+  | ["ival", m, ty, a] => handleIval m ty a "0"
+  | "arity" :: rest => handleArity rest
+  | ["fixp", f, lt, l, rt, r, req] => handleFixp f lt l rt r req
+  | ["decv", bits, p, v] => handleDecv bits p v
+  | ["bool", "is_null", a] =>
+    match parseBoolArr a with
+    | some (v, n, _) => showBits ((decode v n).map (fun o => o.isNone))
+    | none => "bad-op"
+  | ["bool", "is_not_null", a] =>
+    match parseBoolArr a with
+    | some (v, n, _) => showBits ((decode v n).map (fun o => o.isSome))
+    | none => "bad-op"
   | ["bool", "not", a] =>
     match parseBoolArr a with
     | some (v, n, _) =>
